@@ -780,13 +780,21 @@ func init() {
 					if rng.Chance(1, 8) {
 						dt, dw, ot, ow = nil, "", nil, ""
 					}
-					dblocks = append(dblocks, wpBlock{kind: 0, useRaw: true, rawDocx: tokXML(dt, false)})
+					pvia := 0
+					if rng.Chance(1, 3) {
+						// in the custom body style: the writer puts the paragraph properties itself
+						pvia = 3
+						for len(dt) > 0 && dt[0].name == nPPr {
+							dt = dt[4:]
+						}
+					}
+					dblocks = append(dblocks, wpBlock{kind: 0, via: pvia, useRaw: true, rawDocx: tokXML(dt, false)})
 					oblocks = append(oblocks, wpBlock{kind: 0, useRaw: true, rawOdt: tokXML(ot, true)})
 					dv = append(dv, L(I(0), tokV(dt)))
 					ov = append(ov, L(I(0), tokV(ot)))
 					exps = append(exps, exp{kind: 0, text: [2]string{dw, ow}})
 				case 3:
-					lvl, via := rng.Range(1, 9), rng.Intn(3)
+					lvl, via := rng.Range(1, 9), rng.Intn(4)
 					dt, dw := g.docxInline(rng.Range(1, 3))
 					ot, ow := g.odtInline(rng.Range(1, 3))
 					// the docx writer puts pPr first itself
